@@ -132,47 +132,47 @@ section temporal
 variable {E : Env} (hE : EnvOK E) (hG : GraphWF E.G)
 include hE hG
 
-theorem sem_ef {U0 U a : CSet} {d : Nat} {φ : Point → Prop} (hU : UnitOK E U0 U d) (ha : Sem E a U φ) :
+theorem sem_ef {U0 st U a : CSet} {d : Nat} {φ : Point → Prop} (hU : UnitOK E U0 st U d) (ha : Sem E a U φ) :
     Sem E (Ops.evalEfSat E U a) U (fun p => ∃ π : Path (E.G.R p.c) p.s, ∃ i, φ (p.setS (π.π i))) :=
   (sem_eu hE hG hU sem_unit ha).iff (fun p _ _ => (ef_path_iff E.G p.c (fun t => φ (p.setS t)) p.s).symm)
 
-theorem sem_eu' {U0 U a b : CSet} {d : Nat} {φ ψ : Point → Prop} (hU : UnitOK E U0 U d)
+theorem sem_eu' {U0 st U a b : CSet} {d : Nat} {φ ψ : Point → Prop} (hU : UnitOK E U0 st U d)
     (ha : Sem E a U φ) (hb : Sem E b U ψ) :
     Sem E (Ops.evalEuSat E a b) U (fun p => ∃ π : Path (E.G.R p.c) p.s,
       untilOn (fun t => φ (p.setS t)) (fun t => ψ (p.setS t)) π.π) :=
   (sem_eu hE hG hU ha hb).iff (fun p _ _ => (eu_path_iff E.G p.c _ _ p.s).symm)
 
-theorem sem_au' {U0 U a b : CSet} {d : Nat} {φ ψ : Point → Prop} (hU : UnitOK E U0 U d)
+theorem sem_au' {U0 st U a b : CSet} {d : Nat} {φ ψ : Point → Prop} (hU : UnitOK E U0 st U d)
     (ha : Sem E a U φ) (hb : Sem E b U ψ) :
-    Sem E (Ops.evalAu E U a b (Ops.steadyOf E U0)) U (fun p => ∀ π : Path (E.G.R p.c) p.s,
+    Sem E (Ops.evalAu E U a b st) U (fun p => ∀ π : Path (E.G.R p.c) p.s,
       untilOn (fun t => φ (p.setS t)) (fun t => ψ (p.setS t)) π.π) :=
   (sem_au hE hG hU ha hb).iff (fun p _ _ => (au_path_iff E.G p.c _ _ p.s).symm)
 
-theorem sem_eg' {U0 U a : CSet} {d : Nat} {φ : Point → Prop} (hU : UnitOK E U0 U d) (ha : Sem E a U φ) :
-    Sem E (Ops.evalEg E a (Ops.steadyOf E U0)) U
+theorem sem_eg' {U0 st U a : CSet} {d : Nat} {φ : Point → Prop} (hU : UnitOK E U0 st U d) (ha : Sem E a U φ) :
+    Sem E (Ops.evalEg E a st) U
       (fun p => ∃ π : Path (E.G.R p.c) p.s, ∀ i, φ (p.setS (π.π i))) :=
   (sem_eg hE hG hU ha).iff (fun p _ _ => (eg_path_iff E.G p.c (fun t => φ (p.setS t)) p.s).symm)
 
-theorem sem_af {U0 U a : CSet} {d : Nat} {φ : Point → Prop} (hU : UnitOK E U0 U d) (ha : Sem E a U φ) :
-    Sem E (Ops.evalAf E U a (Ops.steadyOf E U0)) U
+theorem sem_af {U0 st U a : CSet} {d : Nat} {φ : Point → Prop} (hU : UnitOK E U0 st U d) (ha : Sem E a U φ) :
+    Sem E (Ops.evalAf E U a st) U
       (fun p => ∀ π : Path (E.G.R p.c) p.s, ∃ i, φ (p.setS (π.π i))) :=
   (sem_neg (sem_eg hE hG hU (sem_neg ha))).iff
     (fun p _ _ => (af_path_iff E.G p.c (fun t => φ (p.setS t)) p.s).symm)
 
-theorem sem_ag {U0 U a : CSet} {d : Nat} {φ : Point → Prop} (hU : UnitOK E U0 U d) (ha : Sem E a U φ) :
+theorem sem_ag {U0 st U a : CSet} {d : Nat} {φ : Point → Prop} (hU : UnitOK E U0 st U d) (ha : Sem E a U φ) :
     Sem E (Ops.evalAg E U a) U
       (fun p => ∀ π : Path (E.G.R p.c) p.s, ∀ i, φ (p.setS (π.π i))) :=
   (sem_neg (sem_eu hE hG hU sem_unit (sem_neg ha))).iff
     (fun p _ _ => (ag_path_iff E.G p.c (fun t => φ (p.setS t)) p.s).symm)
 
-theorem sem_ew {U0 U a b : CSet} {d : Nat} {φ ψ : Point → Prop} (hU : UnitOK E U0 U d)
+theorem sem_ew {U0 st U a b : CSet} {d : Nat} {φ ψ : Point → Prop} (hU : UnitOK E U0 st U d)
     (ha : Sem E a U φ) (hb : Sem E b U ψ) :
-    Sem E (Ops.evalEw E U a b (Ops.steadyOf E U0)) U (fun p => ∃ π : Path (E.G.R p.c) p.s,
+    Sem E (Ops.evalEw E U a b st) U (fun p => ∃ π : Path (E.G.R p.c) p.s,
       untilOn (fun t => φ (p.setS t)) (fun t => ψ (p.setS t)) π.π ∨ ∀ i, φ (p.setS (π.π i))) :=
   (sem_neg (sem_au hE hG hU (sem_neg hb) (sem_and (sem_neg ha) (sem_neg hb)))).iff
     (fun p _ _ => (ew_path_iff E.G p.c (fun t => φ (p.setS t)) (fun t => ψ (p.setS t)) p.s).symm)
 
-theorem sem_aw {U0 U a b : CSet} {d : Nat} {φ ψ : Point → Prop} (hU : UnitOK E U0 U d)
+theorem sem_aw {U0 st U a b : CSet} {d : Nat} {φ ψ : Point → Prop} (hU : UnitOK E U0 st U d)
     (ha : Sem E a U φ) (hb : Sem E b U ψ) :
     Sem E (Ops.evalAw E U a b) U (fun p => ∀ π : Path (E.G.R p.c) p.s,
       untilOn (fun t => φ (p.setS t)) (fun t => ψ (p.setS t)) π.π ∨ ∀ i, φ (p.setS (π.π i))) :=
@@ -204,7 +204,7 @@ theorem mem_projectOutState {a : CSet} {p : Point} :
     Ops.projectOutState E a p = true ↔ ∃ t, t < E.G.nS ∧ a (p.setS t) = true := by
   simp only [Ops.projectOutState, any_range_iff]
 
-theorem sem_jump {U0 U c : CSet} {d : Nat} {φ : Point → Prop} (hU : UnitOK E U0 U d) (hc : Sem E c U φ)
+theorem sem_jump {U0 st U c : CSet} {d : Nat} {φ : Point → Prop} (hU : UnitOK E U0 st U d) (hc : Sem E c U φ)
     (i : Nat) : Sem E (Ops.evalJump E U c i) U (fun p => φ (p.setS (p.getV i))) := by
   intro p hp
   simp only [Ops.evalJump]
@@ -226,8 +226,8 @@ theorem sem_jump {U0 U c : CSet} {d : Nat} {φ : Point → Prop} (hU : UnitOK E 
     exact ⟨⟨huq, trivial⟩, (hc _ hq).mpr ⟨huq, hφ⟩⟩
 
 /-- the three quantifiers, for a child evaluated in a universe `U'` = `U` restricted by a condition `δ` -/
-theorem sem_bind_gen {U0 U U' c : CSet} {i : Nat} {φ δ : Point → Prop} (hik : i < E.G.k)
-    (hU : UnitOK E U0 U i) (hU' : ∀ q ∈ E.pts, (U' q = true ↔ (U q = true ∧ δ q)))
+theorem sem_bind_gen {U0 st U U' c : CSet} {i : Nat} {φ δ : Point → Prop} (hik : i < E.G.k)
+    (hU : UnitOK E U0 st U i) (hU' : ∀ q ∈ E.pts, (U' q = true ↔ (U q = true ∧ δ q)))
     (hc : Sem E c U' φ) :
     Sem E (Ops.evalBind E U c i) U (fun p => δ (p.setV i p.s) ∧ φ (p.setV i p.s)) := by
   intro p hp
@@ -253,8 +253,8 @@ theorem sem_bind_gen {U0 U U' c : CSet} {i : Nat} {φ δ : Point → Prop} (hik 
     simp only [CSet.inter, Ops.comparatorVarState, Bool.and_eq_true, beq_iff_eq, setV_s]
     exact ⟨⟨huq, setV_getV_same p i _ hlen⟩, (hc _ hq).mpr ⟨(hU' _ hq).mpr ⟨huq, hδ⟩, hφ⟩⟩
 
-theorem sem_exists_gen {U0 U U' c : CSet} {i : Nat} {φ δ : Point → Prop}
-    (hU : UnitOK E U0 U i) (hU' : ∀ q ∈ E.pts, (U' q = true ↔ (U q = true ∧ δ q)))
+theorem sem_exists_gen {U0 st U U' c : CSet} {i : Nat} {φ δ : Point → Prop}
+    (hU : UnitOK E U0 st U i) (hU' : ∀ q ∈ E.pts, (U' q = true ↔ (U q = true ∧ δ q)))
     (hc : Sem E c U' φ) :
     Sem E (Ops.evalExists E c i) U (fun p => ∃ t, t < E.G.nS ∧ δ (p.setV i t) ∧ φ (p.setV i t)) := by
   intro p hp
@@ -272,8 +272,8 @@ theorem sem_exists_gen {U0 U U' c : CSet} {i : Nat} {φ δ : Point → Prop}
     have huq : U (p.setV i t) = true := by rw [hU.indepFrom p hp i t (Nat.le_refl i) ht]; exact hu
     exact ⟨t, ht, (hc _ hq).mpr ⟨(hU' _ hq).mpr ⟨huq, hδ⟩, hφ⟩⟩
 
-theorem sem_forall_gen {U0 U U' c : CSet} {i : Nat} {φ δ : Point → Prop}
-    (hU : UnitOK E U0 U i) (hU' : ∀ q ∈ E.pts, (U' q = true ↔ (U q = true ∧ δ q)))
+theorem sem_forall_gen {U0 st U U' c : CSet} {i : Nat} {φ δ : Point → Prop}
+    (hU : UnitOK E U0 st U i) (hU' : ∀ q ∈ E.pts, (U' q = true ↔ (U q = true ∧ δ q)))
     (hc : Sem E c U' φ) :
     Sem E (Ops.evalNeg U (Ops.evalExists E (Ops.evalNeg U' c) i)) U
       (fun p => ∀ t, t < E.G.nS → δ (p.setV i t) → φ (p.setV i t)) := by
@@ -288,7 +288,7 @@ theorem sem_forall_gen {U0 U U' c : CSet} {i : Nat} {φ δ : Point → Prop}
   · rintro hall ⟨t, ht, hδ, hn⟩
     exact hn (hall t ht hδ)
 
-theorem mem_validDomain {U0 U ds : CSet} {d i : Nat} (hU : UnitOK E U0 U d) {q : Point} (hq : q ∈ E.pts) :
+theorem mem_validDomain {U0 st U ds : CSet} {d i : Nat} (hU : UnitOK E U0 st U d) {q : Point} (hq : q ∈ E.pts) :
     Ops.validDomain E U ds i q = true ↔ (U q = true ∧ ds (q.setS (q.getV i)) = true) := by
   simp only [Ops.validDomain]
   rw [mem_projectOutState hE hG]
@@ -330,18 +330,19 @@ def DomsIn (K : SemCtx) : Tree → Prop
 structure CtxOK (E : Env) (K : SemCtx) : Prop where
   domIndep : ∀ l a, K.dom l = some a → ∀ p ∈ E.pts, ∀ i t, t < E.G.nS → a (p.setV i t) = a p
 
-theorem UnitOK.weaken {E : Env} {U0 U : CSet} {d : Nat} (h : UnitOK E U0 U d) : UnitOK E U0 U (d + 1) :=
-  ⟨h.stateIndep, fun p hp i t hi ht => h.indepFrom p hp i t (Nat.le_of_succ_le hi) ht, h.sub0⟩
+theorem UnitOK.weaken {E : Env} {U0 st U : CSet} {d : Nat} (h : UnitOK E U0 st U d) :
+    UnitOK E U0 st U (d + 1) :=
+  ⟨h.steady, h.stateIndep, fun p hp i t hi ht => h.indepFrom p hp i t (Nat.le_of_succ_le hi) ht, h.sub0⟩
 
 section main
 variable {E : Env} (hE : EnvOK E) (hG : GraphWF E.G)
 include hE hG
 
 /-- the universe restricted by a domain for the variable at index `d` -/
-theorem restricted_unit {U0 U ds : CSet} {d : Nat} (K : SemCtx) (hK : CtxOK E K) {l : Name}
-    (hl : K.dom l = some ds) (hU : UnitOK E U0 U d) :
+theorem restricted_unit {U0 st U ds : CSet} {d : Nat} (K : SemCtx) (hK : CtxOK E K) {l : Name}
+    (hl : K.dom l = some ds) (hU : UnitOK E U0 st U d) :
     let U' := E.tab (U.inter (Ops.validDomain E U ds d))
-    (∀ q ∈ E.pts, (U' q = true ↔ (U q = true ∧ ds (q.setS (q.getV d)) = true))) ∧ UnitOK E U0 U' (d + 1) := by
+    (∀ q ∈ E.pts, (U' q = true ↔ (U q = true ∧ ds (q.setS (q.getV d)) = true))) ∧ UnitOK E U0 st U' (d + 1) := by
   intro U'
   have hmem : ∀ q ∈ E.pts, (U' q = true ↔ (U q = true ∧ ds (q.setS (q.getV d)) = true)) := by
     intro q hq
@@ -352,7 +353,7 @@ theorem restricted_unit {U0 U ds : CSet} {d : Nat} (K : SemCtx) (hK : CtxOK E K)
     constructor
     · rintro ⟨_, h⟩; exact h
     · intro h; exact ⟨h.1, h⟩
-  refine ⟨hmem, ?_, ?_, ?_⟩
+  refine ⟨hmem, hU.steady, ?_, ?_, ?_⟩
   · intro p hp t ht
     have hq := setS_mem' hE hG hp ht
     have h1 := hmem _ hq
@@ -384,9 +385,9 @@ theorem dom_at_setV {ds : CSet} (K : SemCtx) (hK : CtxOK E K) {l : Name} (hl : K
 
 /-- MAIN: on every graph, for every well-named formula and every admissible unit set, the cache-free
 evaluator returns exactly the points of the unit that satisfy the formula. -/
-theorem evalPure_correct (K : SemCtx) (hK : CtxOK E K) (U0 : CSet) :
-    ∀ t d U, WellNamed E.G.k d t → DomsIn K t → UnitOK E U0 U d →
-      Sem E (Eval.evalPure E (Ops.steadyOf E U0) K.wild K.dom t U) U (sat E.G K t) := by
+theorem evalPure_correct (K : SemCtx) (hK : CtxOK E K) (U0 st : CSet) :
+    ∀ t d U, WellNamed E.G.k d t → DomsIn K t → UnitOK E U0 st U d →
+      Sem E (Eval.evalPure E st K.wild K.dom t U) U (sat E.G K t) := by
   intro t
   induction t with
   | atom a =>
